@@ -51,7 +51,7 @@ def run_tlc(cfg, extra=None, timeout=600):
         cmd = ["tlc", "-workers", "1", "-metadir", os.path.join(work, "meta"), "-config", cfg] + (extra or []) + ["IOShim.tla"]
         outp = os.path.join(work, "out.txt")
         env = dict(os.environ)
-        env["JAVA_TOOL_OPTIONS"] = "-Xmx3g"
+        env["JAVA_TOOL_OPTIONS"] = f"-Xmx3g -Djava.io.tmpdir={work}"   # TLC's own scratch directory goes away with `work`
         t0 = time.time()
         for attempt in (1, 2):
             try:
